@@ -171,28 +171,59 @@ def check(repo: Repo, R) -> None:
 
 
 def threeway(repo: Repo, R, rule: str, hf: FuncInfo, nname: Optional[str]):
+    """Decision table of the three-way helper over (|difference| beyond the tolerance, difference positive), with the
+    difference identified by its provenance: the exact values' difference, rescaled to the smaller prefix."""
+    from . import shared
+    from .. import fde
+
     a, b = [x.arg for x in hf.node.args.args[:2]]
-    defs = au.local_defs(hf.node)
     conv = bool(pat.find(f"{b} = to_prefixed({b})", hf.node))
-    diffs = [k for k, v in defs.items() if nname and f"{nname}({a}) - {nname}({b})" in ast.unparse(v)]
-    d = diffs[0] if diffs else None
-    tol = None
-    zero_ok = sign_ok = False
-    for n in au.walk_no_nested(hf.node):
-        if isinstance(n, ast.If) and d and ast.unparse(n.test).startswith(f"abs({d})") and isinstance(n.test, ast.Compare) and isinstance(n.test.ops[0], (ast.LtE, ast.Lt)):
-            tol = ast.unparse(n.test.comparators[0])
-            zero_ok = isinstance(n.body[-1], ast.Return) and ast.unparse(n.body[-1].value) == "0"
-    last = hf.node.body[-1]
-    if isinstance(last, ast.Return) and d:
-        sign_ok = ast.unparse(last.value) in (f"1 if {d} > 0 else -1", f"-1 if {d} < 0 else 1")
-    tol_ok = tol is not None and "EPSILON" in tol
-    # the tolerance is in units of the smaller of the two prefixes (as documented by EPSILON: 20 places after rescaling)
-    scaled = d is not None and nname is not None and ast.unparse(defs[d]) == f"({nname}({a}) - {nname}({b})).scaleb(-smaller)" and ast.unparse(defs.get("smaller", ast.Constant(None))) in (f"min({a}.prefix.value, {b}.prefix.value)", f"min({b}.prefix.value, {a}.prefix.value)")
+    dtexts = {f"({nname}({a}) - {nname}({b})).scaleb(-min({x}.prefix.value, {y}.prefix.value))" for x, y in ((a, b), (b, a))} if nname else set()
+    unscaled = f"{nname}({a}) - {nname}({b})" if nname else None
+    seen = {"diff": None, "tol": None}
+
+    def is_diff(e):
+        t = shared.prov_text(hf.node, e)
+        if t in dtexts:
+            seen["diff"] = t
+            return True
+        if unscaled is not None and t == unscaled:
+            seen["diff"] = t
+            return True
+        return False
+
+    def m_big(t):
+        # canonical form of `abs(d) > tol` / `not abs(d) <= tol`:  tol < abs(d)
+        if isinstance(t, ast.Compare) and len(t.ops) == 1 and isinstance(t.ops[0], ast.Lt):
+            l, r = t.left, t.comparators[0]
+            if isinstance(r, ast.Call) and ast.unparse(r.func) == "abs" and len(r.args) == 1 and is_diff(r.args[0]):
+                seen["tol"] = shared.prov_text(hf.node, l)
+                return True
+        return False
+
+    def m_pos(t):
+        if isinstance(t, ast.Compare) and len(t.ops) == 1 and isinstance(t.ops[0], ast.Lt):
+            l, r = t.left, t.comparators[0]
+            if ast.unparse(l) == "0" and is_diff(r):
+                return True
+            if ast.unparse(r) == "0" and is_diff(l):
+                return "neg"  # beyond the tolerance the difference is not zero
+        return False
+
+    body = [st for st in hf.node.body if not (isinstance(st, ast.Expr) and isinstance(st.value, ast.Constant))]
+    try:
+        tab = fde.decision_table(body, [("big", m_big), ("pos", m_pos)], ["<return>"], lambda v: ast.unparse(v), tolerant=True)
+    except fde.Unknown as e:
+        raise AnalysisError(f"idiom-unknown: three-way helper {hf.site}: {e}")
+    got = {k: v["<return>"] for k, v in tab.items()}
+    want = {(False, False): "0", (False, True): "0", (True, True): "1", (True, False): "-1"}
+    tol_ok = seen["tol"] is not None and "EPSILON" in seen["tol"]
+    scaled = seen["diff"] in dtexts
     R.check(scaled, rule, key_of(hf, "tolerance-relative-to-smaller-prefix"), hf.site,
             f"the difference is rescaled to the smaller of the two prefixes before the 10**-EPSILON tolerance is applied: {scaled}",
             why="with an absolute tolerance every pair of values below 1e-20 compares equal: 1*y == 2*y, zepto/atto values do not sort")
-    R.check(conv and d is not None and zero_ok and sign_ok and tol_ok, rule, key_of(hf), hf.site,
-            f"three-way helper: converts the right operand ({conv}); difference of the exact values `{ast.unparse(defs[d]) if d else None}`; |diff| within tolerance `{tol}` -> 0 ({zero_ok}); else sign of the difference ({sign_ok})",
+    R.check(conv and seen["diff"] is not None and got == want and tol_ok, rule, key_of(hf), hf.site,
+            f"three-way helper: converts the right operand ({conv}); difference of the exact values `{seen['diff']}`; tolerance `{seen['tol']}`; decision table over (beyond tolerance, positive): {got}, expected {want}",
             why="comparison results do not agree with the comparison of the exact values (sign flipped, tolerance missing or unscaled)")
 
 
@@ -203,16 +234,66 @@ def arithmetic_shape(repo: Repo, R):
     R.check(ast.unparse(neg) == "Prefixed.new(-self.number, self.prefix)", rule, key_of(ci.methods["__neg__"]), ci.methods["__neg__"].site, f"__neg__ = `{ast.unparse(neg)}`", why="negation changes magnitude or prefix")
     ab = _single_return(ci.methods["__abs__"])
     R.check(ast.unparse(ab) == "Prefixed.new(abs(self.number), self.prefix)", rule, key_of(ci.methods["__abs__"]), ci.methods["__abs__"].site, f"__abs__ = `{ast.unparse(ab)}`", why="abs changes magnitude or prefix")
+    from . import shared
+    from .. import fde
+
     for name, op in (("_add", "+"), ("_subtract", "-")):
         f = repo.func(F_PREFIX, name)
-        same = bool(pat.find(f"Prefixed.new(lhs.number {op} rhs.number, lhs.prefix)", f.node))
-        diffp = bool(pat.find(f"$N = lhs.scale(smaller).number {op} rhs.scale(smaller).number", f.node)) and bool(pat.find("Prefixed.new($N, smaller)", f.node))
-        sm = bool(pat.find("smaller = lhs.prefix if lhs.prefix.value < rhs.prefix.value else rhs.prefix", f.node))
+
+        def m_eq(t):
+            return ast.unparse(t) in ("lhs.prefix == rhs.prefix", "rhs.prefix == lhs.prefix", "lhs.prefix.value == rhs.prefix.value", "rhs.prefix.value == lhs.prefix.value")
+
+        def m_lt(t):
+            s_ = ast.unparse(t)
+            if s_ == "lhs.prefix.value < rhs.prefix.value":
+                return True
+            if s_ == "rhs.prefix.value < lhs.prefix.value":
+                return "neg"  # prefixes differ on this path
+            return False
+
+        def norm(v, f=f):
+            return ast.unparse(v)
+
+        body = [st for st in f.node.body if not (isinstance(st, ast.Expr) and isinstance(st.value, ast.Constant))]
+        try:
+            tab = fde.decision_table(body, [("eq", m_eq), ("lt", m_lt)], ["<return>"], norm, tolerant=True)
+        except fde.Unknown as e:
+            raise AnalysisError(f"idiom-unknown: {f.site}: {e}")
+        # resolve locals in the returned expression per valuation: re-run with the environment substituted
+        def result(eq, lt):
+            env = {}
+            out = [None]
+
+            def run(block):
+                for st in block:
+                    if isinstance(st, ast.If):
+                        t = fde._ev_atoms(st.test, {"eq": eq, "lt": lt}, [("eq", m_eq), ("lt", m_lt)])
+                        if run(st.body if t else st.orelse):
+                            return True
+                    elif isinstance(st, ast.Assign) and len(st.targets) == 1 and isinstance(st.targets[0], ast.Name):
+                        env[st.targets[0].id] = au.expand(st.value, env)
+                    elif isinstance(st, ast.Return):
+                        out[0] = ast.unparse(au.expand(st.value, env))
+                        return True
+                return False
+
+            run(body)
+            return out[0]
+
+        same = result(True, False) == f"Prefixed.new(lhs.number {op} rhs.number, lhs.prefix)" or result(True, False) == f"Prefixed.new(lhs.number {op} rhs.number, rhs.prefix)"
+        sm = True
+        diffp = True
+        for lt, small in ((True, "lhs.prefix"), (False, "rhs.prefix")):
+            got = result(False, lt)
+            want = f"Prefixed.new(lhs.scale({small}).number {op} rhs.scale({small}).number, {small})"
+            if got != want:
+                diffp = False
+                sm = sm and got is not None and got.endswith(f", {small})")
         R.check(same and diffp and sm, rule, key_of(f), f.site,
                 f"{name}: equal prefixes -> numbers combined with `{op}` under that prefix ({same}); otherwise both scaled to the smaller prefix ({sm}) and combined left {op} right ({diffp})",
                 why=f"{'sums' if op == '+' else 'differences'} are computed on unscaled mantissas, in the wrong order, or under the wrong prefix")
     sc = ci.methods["scale"]
-    ok = bool(pat.find("$N = self.number * Decimal(10) ** (self.prefix.value - prefix.value)", sc.node)) and bool(pat.find("Prefixed.new($N, prefix)", sc.node))
+    ok = any(shared.prov_text(sc.node, r.value) == "Prefixed.new(self.number * Decimal(10) ** (self.prefix.value - prefix.value), prefix)" for r in shared.returns_of(sc.node))
     R.check(ok, rule, key_of(sc), sc.site, f"scale(p): number * 10 ** (own exponent - p's exponent), under p: {ok}", why="rescaling multiplies by the inverse factor: every mixed-prefix sum is off by powers of ten")
     # operator entry points route to the helpers with operands in order
     for meth, helper, l, r in (("__add__", "_add", "self", "other"), ("__sub__", "_subtract", "self", "other"), ("__rsub__", "_subtract", "other", "self")):
@@ -226,19 +307,17 @@ def arithmetic_shape(repo: Repo, R):
     ok = bool(pat.find("(self.number * other.number * self.prefix * other.prefix).scale()", pm.node)) and bool(pat.find("Prefixed.new(self.number * Decimal(str(other)), self.prefix).scale()", pm.node))
     R.check(ok, rule, key_of(pm), pm.site, f"__mul__: product of the numbers times the product of the prefixes, rescaled: {ok}", why="products are off by the prefix of one operand")
     pr = repo.func(F_PREFIX, "Prefix.__rmul__")
-    d2 = au.local_defs(pr.node)
-    targ_ok = ast.unparse(d2.get("targ", ast.Constant(None))) == "self.value + other.prefix.value"
-    exp_ok = ast.unparse(d2.get("exptemp", ast.Constant(None))) == "e(targ)"
-    nn = d2.get("new_num")
-    want = ast.parse("other.number * Decimal(10) ** (targ - exptemp.symbol.value)", mode="eval").body
-    shift_ok = nn is not None and ast.unparse(nn) == ast.unparse(want)
-    if nn is not None and not shift_ok:
-        # equivalent spelling through scaleb with the same (positive) shift
-        shift_ok = ast.unparse(nn) == "other.number.scaleb(targ - exptemp.symbol.value)"
-    res_ok = bool(pat.find("Prefixed.new(new_num, exptemp.symbol)", pr.node))
+    T = "self.value + other.prefix.value"
+    prs = [r for r in shared.returns_of(pr.node) if shared.cond_match(pr.node, r, "isinstance(other, Prefixed)", True, use_prov=False)]
+    m = pat.match("Prefixed.new($NUM, $PRE)", shared.prov(pr.node, prs[0].value)) if len(prs) == 1 else None
+    nn = m["NUM"] if m is not None else None
+    targ_ok = nn is not None and T in ast.unparse(nn)
+    exp_ok = m is not None and ast.unparse(m["PRE"]) == f"e({T}).symbol"
+    shift_ok = nn is not None and ast.unparse(nn) in (f"other.number * Decimal(10) ** ({T} - e({T}).symbol.value)", f"other.number.scaleb({T} - e({T}).symbol.value)")
+    res_ok = exp_ok
     R.check(targ_ok and exp_ok and shift_ok and res_ok, rule, key_of(pr), pr.site,
             f"Prefixed * Prefix: target exponent = sum of the two exponents ({targ_ok}); nearest prefix e(targ) ({exp_ok}); number shifted by the leftover decades targ - nearest ({shift_ok}: `{ast.unparse(nn) if nn is not None else None}`); result under the nearest prefix ({res_ok})",
             why="products whose exponents do not sum to a prefix (pairs with centi/deci/deca/hecto, or sums beyond +-24) are off by powers of ten")
     tp = repo.func(F_PREFIX, "to_prefixed")
-    fl = any(isinstance(n, ast.If) and "(int, float)" in ast.unparse(n.test) and bool(pat.find("Prefixed(number=Decimal(str(v)))", ast.Module(n.body, []))) for n in au.walk_no_nested(tp.node))
+    fl = any(shared.prov_text(tp.node, r.value) == "Prefixed(number=Decimal(str(v)))" and shared.cond_match(tp.node, r, "isinstance(v, (int, float))", True, use_prov=False) for r in shared.returns_of(tp.node))
     R.check(fl, rule, key_of(tp), tp.site, f"to_prefixed converts int/float through str() before Decimal (no binary-fraction digits): {fl}", why="0.1 becomes 0.1000000000000000055511151231257827...")
